@@ -1,5 +1,5 @@
-(* WireExamples: non-vacuity of the hypotheses of the C13 / C02 theorems, and instances of the
-   JSON-level specifications assumed by the _partial theorems (each closed by vm_compute). *)
+(* WireExamples: non-vacuity of the hypotheses of the C13 / C02 theorems, and concrete instances
+   (each closed by vm_compute) of the JSON-level specifications, which are proved in WireSpecs.v. *)
 From Coq Require Import List NArith ZArith Bool String Permutation.
 From JV Require Import Bytes Json JsonProofs Msg Wire WireProofs.
 Import ListNotations.
@@ -37,18 +37,54 @@ Example raw_not_safe : line_safe (bs " [ 1 ,
  2 ] ") = false.
 Proof. vm_compute. reflexivity. Qed.
 
-Example msg_rt_nonvacuous : msg_rt ex_msg /\ msg_rt ex_rsp.
+Example msg_rt_nonvacuous : msg_rt ex_msg /\ msg_rt ex_rsp /\ msg_rt_at 1 ex_msg /\ msg_rt_at 1 ex_rsp.
 Proof.
-  split; constructor; try reflexivity; try (left; reflexivity).
-  - right. reflexivity.
-  - right. repeat split; reflexivity.
-  - right. reflexivity.
+  assert (He : forall d, d = 1%N \/ d = 2%N -> err_rt_at d ex_err).
+  { intros d Hd. split; [unfold int32_ok; cbn; split; discriminate|]. right. eexists. split; [vm_compute; reflexivity|].
+    destruct Hd as [-> | ->]; vm_compute; reflexivity. }
+  assert (A : forall d, d = 0%N \/ d = 1%N -> msg_rt_at d ex_msg).
+  { intros d Hd. constructor.
+    - reflexivity.
+    - right. reflexivity.
+    - right. destruct Hd as [-> | ->]; repeat split; reflexivity.
+    - left; reflexivity.
+    - intros e H; discriminate H. }
+  assert (B : forall d, d = 0%N \/ d = 1%N -> msg_rt_at d ex_rsp).
+  { intros d Hd. constructor.
+    - reflexivity.
+    - right. reflexivity.
+    - left; reflexivity.
+    - left; reflexivity.
+    - intros e H _ _. injection H as <-. apply He. destruct Hd as [-> | ->]; [left|right]; reflexivity. }
+  unfold msg_rt. split; [apply A; auto | split; [apply B; auto | split; [apply A; auto | apply B; auto]]].
 Qed.
 
 Example parse_back_instance :
   match enc_msg ex_msg with Some b => Some (parse_member b) | None => None end = Some (canon ex_msg) /\
   match enc_msg ex_rsp with Some b => Some (parse_msgs b) | None => None end = Some (InMsgs false [canon ex_rsp]).
 Proof. split; vm_compute; reflexivity. Qed.
+
+(* the batch theorem: its hypotheses hold of a two-member batch, which parses back *)
+Example parse_back_batch_nonvacuous :
+  Forall (msg_rt_at 1) [ex_msg; ex_rsp] /\
+  match enc_msgs true [ex_msg; ex_rsp] with
+  | Some b => Some (parse_msgs b)
+  | None => None
+  end = Some (InMsgs true (map canon [ex_msg; ex_rsp])).
+Proof.
+  split; [|vm_compute; reflexivity].
+  destruct msg_rt_nonvacuous as (_ & _ & A & B). constructor; [exact A|]. constructor; [exact B|]. constructor.
+Qed.
+
+(* the error codec theorem: its hypotheses hold of ex_err at depths 1 and 2 *)
+Example error_round_trip_nonvacuous :
+  err_rt_at 1 ex_err /\ err_rt_at 2 ex_err /\ marshal_error ex_err <> None /\ (N.succ 2 <= max_depth)%N.
+Proof.
+  assert (He : forall d, d = 1%N \/ d = 2%N -> err_rt_at d ex_err).
+  { intros d Hd. split; [unfold int32_ok; cbn; split; discriminate|]. right. eexists. split; [vm_compute; reflexivity|].
+    destruct Hd as [-> | ->]; vm_compute; reflexivity. }
+  split; [apply He; auto|]. split; [apply He; auto|]. split; vm_compute; discriminate.
+Qed.
 
 (* instances of the JSON-level specifications *)
 Definition ex_fields : list (bytes * bytes) :=
